@@ -279,6 +279,57 @@ func c21(repo string, out *fg.Out) error {
 	}
 	hitChecksExpiry := mentions(hitIf.Cond, vf, ".info.ExpiresAt")
 
+	// ---- does the hit path write the cache? Anything reachable from the hit branch (its own statements
+	// and, transitively, the AuthManager methods it calls) that takes cacheMu.Lock(), assigns am.cache /
+	// am.cache[...] or deletes from am.cache counts. The branch must still start by releasing the read lock
+	// and end by returning the cached info.
+	if len(hitIf.Body.List) < 2 || !mentions(hitIf.Body.List[0], vf, "am.cacheMu.RUnlock()") {
+		return fmt.Errorf("VerifyToken: the cache-hit branch no longer starts with am.cacheMu.RUnlock()")
+	}
+	if r, ok := hitIf.Body.List[len(hitIf.Body.List)-1].(*ast.ReturnStmt); !ok || len(r.Results) != 1 || !mentions(r.Results[0], vf, ".info") {
+		return fmt.Errorf("VerifyToken: the cache-hit branch no longer ends with `return entry.info`")
+	}
+	var writesCache func(n ast.Node, f *fg.File, depth int, seen map[string]bool) bool
+	writesCache = func(n ast.Node, f *fg.File, depth int, seen map[string]bool) bool {
+		found := false
+		ast.Inspect(n, func(x ast.Node) bool {
+			if found {
+				return false
+			}
+			switch y := x.(type) {
+			case *ast.AssignStmt:
+				for _, l := range y.Lhs {
+					if ix, ok := l.(*ast.IndexExpr); ok && isSel(ix.X, "am", "cache") {
+						found = true
+					}
+					if isSel(l, "am", "cache") {
+						found = true
+					}
+				}
+			case *ast.CallExpr:
+				if id, ok := y.Fun.(*ast.Ident); ok && id.Name == "delete" && len(y.Args) > 0 && isSel(y.Args[0], "am", "cache") {
+					found = true
+				}
+				if s, ok := y.Fun.(*ast.SelectorExpr); ok {
+					if s.Sel.Name == "Lock" && isSel(s.X, "am", "cacheMu") {
+						found = true
+					}
+					if id, ok := s.X.(*ast.Ident); ok && id.Name == "am" && depth < 4 && !seen[s.Sel.Name] {
+						seen[s.Sel.Name] = true
+						if cf, cd := fg.FindFunc(files, "AuthManager", s.Sel.Name); cd != nil && cd.Body != nil {
+							if writesCache(cd.Body, cf, depth+1, seen) {
+								found = true
+							}
+						}
+					}
+				}
+			}
+			return true
+		})
+		return found
+	}
+	hitWrites := writesCache(hitIf.Body, vf, 0, map[string]bool{})
+
 	// the database path must still check the token's own expiry before the insert
 	dbExpiry := false
 	ast.Inspect(vt, func(n ast.Node) bool {
@@ -365,6 +416,8 @@ func c21(repo string, out *fg.Out) error {
 	fmt.Fprintf(w, "def genGuard : Bool := %s\n", b(genGuard))
 	fmt.Fprintf(w, "/-- the cache-hit condition re-checks entry.info.ExpiresAt -/\n")
 	fmt.Fprintf(w, "def hitChecksExpiry : Bool := %s\n", b(hitChecksExpiry))
+	fmt.Fprintf(w, "/-- something reachable from the cache-hit branch takes cacheMu.Lock() or writes am.cache -/\n")
+	fmt.Fprintf(w, "def hitPathWritesCache : Bool := %s\n", b(hitWrites))
 	fmt.Fprintf(w, "/-- (method, cluster-apply, kind, calls InvalidateCache on the success path after its SQL statement) -/\n")
 	fmt.Fprintf(w, "def mutators : List (String × Bool × String × Bool) := [\n")
 	for i, m := range muts {
@@ -380,6 +433,7 @@ func c21(repo string, out *fg.Out) error {
 	out.JSON["gen_guard"] = genGuard
 	out.JSON["gen_field"] = genField
 	out.JSON["hit_checks_expiry"] = hitChecksExpiry
+	out.JSON["hit_path_writes_cache"] = hitWrites
 	out.JSON["mutators"] = muts
 	return nil
 }
